@@ -7,6 +7,18 @@ V = os.path.dirname(os.path.dirname(os.path.abspath(__file__)))
 
 # id -> (technique, level text, level note, design ref)
 CHECKS = {
+ "C01": ("complete enumeration of program families (operator x type x boundary-operand alphabet², shifts, conversions, float ops, ...) run through Go and through the real Wa pipeline, compared item by item",
+         "Every item of each program family (every binary/unary operator, shift, conversion at every public integer/float type over a boundary alphabet, complete products) is compiled by the real pipeline (go2wa -> loader -> type checker -> SSA -> WAT backend -> wat2wasm -> embedded engine) and by Go; printed results and normal termination must agree. Coverage statement for the enumerated families and alphabets.",
+         "Trusted: the host Go toolchain as reference; the repository's own Go->Wa syntax converter (go2wa) renders the shared source. Items whose Go execution panics are outside the domain. int/uint (32-bit in Wa, 64-bit in Go) are used only where values stay in 32 bits.",
+         "DESIGN.md §3 C01"),
+ "C25": ("complete alphabet product of packet sequences x frame types through the real SLIP/SLIPMUX writers, read back by the real readers under every read-chunking with <=2 split points plus one-byte reads (controlled io.Reader)",
+         "Every sequence of 1-2 (thorough 1-3) packets over the 8-byte alphabet {01,END,ESC,ESC_END,ESC_ESC,0A,45,A9}, as all-plain SLIP streams and as SLIPMUX streams with every per-packet mix of diagnostic/CoAP/IPv4/IPv6, within the stated total-size bounds, is written with slip.Writer/SlipMuxWriter and read back with slip.Reader/SlipMuxReader once per chunking of the wire stream; payloads, order and frame types must be equal. A coverage statement for the bound, not a proof beyond it.",
+         "Trusted: bytes.Buffer as the wire. An independent RFC1055/RFC1662 decoder only attributes a failed round trip to writer or reader, it never decides. Outside the domain: zero-length reads and (n>0, io.EOF); requesting more packets than were written. Quick bounds pairs by total size (plain <=5, mux <=4); thorough takes all pairs and triples of total size <=4.",
+         "DESIGN.md §3 C25"),
+ "C26": ("reflection-driven enumeration of every registered DAP message type x <=2 (3 thorough) deviating field slots from per-kind alphabets, written by WriteProtocolMessage and read back by ReadProtocolMessage through bufio size 16 over a controlled io.Reader; every chunking with <=2 split points for single messages and for 2-3 message streams",
+         "All 44 request, 44 response and 17 event constructors of the default codec, plus the ErrorResponse of each command, are enumerated with every assignment of <=k deviating slots (content sweep: unsplit and one-byte reads). Every type with <=1 deviation is read under every chunking with <=2 split points (framing sweep). Every 2- and 3-sequence over 8 representative messages is read under every such chunking (stream sweep). Oracle: same dynamic Go type and json.Marshal(out)==json.Marshal(in).",
+         "Content x chunking is factored into three sweeps instead of a full product. InitializeRequest PathFormat \"\" is compared as \"path\" (documented constructor default + omitempty). Needs the tag-guarded accessor engine/inject/internal/3rdparty/go-dap/zz_verif_ctors.go. Trusted: encoding/json as the equality notion.",
+         "DESIGN.md §3 C26"),
  "C10": ("explicit-state BFS over malloc/free histories on the real allocator module, canonical state keys, invariants on every state",
          "Every malloc/free history up to the stated depth over a size alphabet straddling every size-class edge, in 48 heap configurations x 2 textual copies of the allocator, is executed on the real WAT module; the property's invariants (alignment, in-heap, size, no overlap, payload integrity, exact tiling of [heap start, bump pointer) by live xor free blocks, failure only when unavoidable) are evaluated after every transition. A coverage statement for the bound, not a proof beyond it.",
          "Trusted: the embedded wazero engine executing the module; the harness's heap walk. Payload bytes are left out of the state key (malloc/free never read them) but are verified on every transition.",
